@@ -90,7 +90,7 @@ pub fn hostile_points(rng: &mut Rng, n: usize) -> Vec<(f64, f64)> {
   // joint class: a latitude a controlled distance (1e-13 .. 1e-6 rad, either side) from the transition latitude AND a longitude that puts
   // the point on an edge of a cell of depth 24..29 (the two boundaries together: region dispatch x cell-border rounding), half of them
   // within a few cells of a seam meridian k.pi/2 (the 8 points where three base cells meet)
-  for _ in 0..n / 4 {
+  for _ in 0..n / 2 {
     let depth = 24 + rng.below(6) as u8; let ns = nside(depth) as f64;
     let s = if rng.coin() { 1.0 } else { -1.0 };
     let lat = s * (tl + (if rng.coin() { 1.0 } else { -1.0 }) * rng.log_uniform(1e-13, 1e-6));
